@@ -17,6 +17,7 @@ import (
 
 	"cuelabs.dev/go/oci/ociregistry"
 	"cuelabs.dev/go/oci/ociregistry/ociclient"
+	"cuelabs.dev/go/oci/ociregistry/ocimem"
 	"cuelabs.dev/go/oci/ociregistry/ociserver"
 	"github.com/opencontainers/go-digest"
 	"pgregory.net/rapid"
@@ -28,11 +29,11 @@ import (
 func TestMain(m *testing.M) { vt.Main(m) }
 
 type Script struct {
-	Code    string `json:"code"` // "" = no OCI code at all
+	Code string `json:"code"` // "" = no OCI code at all
 	// EmptyCodeError: with Code "", build an ociregistry.Error whose code is empty (it can still carry a detail)
-	EmptyCodeError bool `json:"empty_code_error,omitempty"`
-	Message string `json:"message"`
-	Detail  string `json:"detail,omitempty"` // JSON text or ""
+	EmptyCodeError bool   `json:"empty_code_error,omitempty"`
+	Message        string `json:"message"`
+	Detail         string `json:"detail,omitempty"` // JSON text or ""
 	// Wraps, applied inside-out: "w" = fmt %w with a prefix, "h<status>" = NewHTTPError(status)
 	Wraps   []string `json:"wraps,omitempty"`
 	Carrier string   `json:"carrier"`
@@ -58,7 +59,9 @@ var carriers = []string{"GetBlob", "GetBlobRange", "GetManifest", "GetTag", "Res
 	"PushBlob", "PushBlobChunked", "PushBlobChunkedResume", "MountBlob", "PushManifest",
 	"DeleteBlob", "DeleteManifest", "DeleteTag", "Repositories", "Tags", "Referrers",
 	// errors raised by the backend's BlobWriter rather than by an Interface method ("<call>@<stage>")
-	"Writer@write", "Writer@close", "Writer@commit", "PushBlob@write", "PushBlob@commit"}
+	"Writer@write", "Writer@close", "Writer@commit", "PushBlob@write", "PushBlob@commit",
+	// the error of a method on a registry where everything else works
+	"MountBlob@only"}
 
 func isHead(c string) bool { return strings.HasPrefix(c, "Resolve") }
 
@@ -142,7 +145,7 @@ func call(reg ociregistry.Interface, carrier string, hops int) error {
 		}
 		_, err := reg.PushBlobChunkedResume(ctx, "foo", id, -1, 0)
 		return err
-	case "MountBlob":
+	case "MountBlob", "MountBlob@only":
 		_, err := reg.MountBlob(ctx, "bar", "foo", dg)
 		return err
 	case "PushManifest":
@@ -182,6 +185,15 @@ func call(reg ociregistry.Interface, carrier string, hops int) error {
 		return err
 	}
 	panic("unknown carrier")
+}
+
+type mountFails struct {
+	ociregistry.Interface
+	err error
+}
+
+func (m *mountFails) MountBlob(ctx context.Context, from, to string, dg ociregistry.Digest) (ociregistry.Descriptor, error) {
+	return ociregistry.Descriptor{}, m.err
 }
 
 const writerDataLen = 100 << 10
@@ -233,7 +245,10 @@ type observed struct {
 func through(s Script, n int) (observed, error) {
 	before := s.build()
 	var reg ociregistry.Interface = &ociregistry.Funcs{NewError: func(ctx context.Context, method, repo string) error { return before }}
-	if _, stage, ok := strings.Cut(s.Carrier, "@"); ok {
+	if s.Carrier == "MountBlob@only" {
+		// a registry on which the mount, and nothing but the mount, fails
+		reg = &mountFails{Interface: ocimem.New(), err: before}
+	} else if _, stage, ok := strings.Cut(s.Carrier, "@"); ok {
 		fw := &failWriter{stage: stage, err: before}
 		reg = &ociregistry.Funcs{
 			PushBlobChunked_: func(ctx context.Context, repo string, chunkSize int) (ociregistry.BlobWriter, error) {
@@ -522,7 +537,7 @@ func genScript(t *rapid.T) Script {
 var prop = &vt.Prop[Script]{
 	ID:   "C07",
 	Name: "ErrorsAcrossTheWire",
-	Rule: "error values: each of the 15 standard codes, custom codes, no code; optional JSON detail (objects, arrays, scalars, null, spaced, numbers that float64 cannot hold); messages {empty, random UTF-8, beginning with the rendered code, with a status line, with both, stuttering, odd spacing}; 0-3 wrappers from {fmt %w, NewHTTPError(status)} with statuses 400-599 incl. ones without a reason phrase (419, 452, 499, 512, 599); carrier = each of the 18 Interface methods (GET, HEAD, POST, PUT, DELETE and list-based) and errors raised by the backend's BlobWriter at Write, Close or Commit (reached through a chunked writer and through PushBlob); sent through 1..3 real server->client hops, and for every hop count h <= hops; oracle = errors.Is against every standard value unchanged (HEAD carriers: the documented status mapping; ErrRangeInvalid status-based as documented), status on every hop = the specification's for the code, else the error's own HTTP status, else 500, code and detail JSON-equal, message after h hops == message after one hop; non-trivial = >= 2 hops, a wrapper, or a prefix-like message; distinct = (code, wraps, message class, carrier, hops, status)",
+	Rule: "error values: each of the 15 standard codes, custom codes, no code; optional JSON detail (objects, arrays, scalars, null, spaced, numbers that float64 cannot hold); messages {empty, random UTF-8, beginning with the rendered code, with a status line, with both, stuttering, odd spacing}; 0-3 wrappers from {fmt %w, NewHTTPError(status)} with statuses 400-599 incl. ones without a reason phrase (419, 452, 499, 512, 599); carrier = each of the 18 Interface methods (GET, HEAD, POST, PUT, DELETE and list-based) and errors raised by the backend's BlobWriter at Write, Close or Commit (reached through a chunked writer and through PushBlob), and a MountBlob that fails on a registry where everything else works; sent through 1..3 real server->client hops, and for every hop count h <= hops; oracle = errors.Is against every standard value unchanged (HEAD carriers: the documented status mapping; ErrRangeInvalid status-based as documented), status on every hop = the specification's for the code, else the error's own HTTP status, else 500, code and detail JSON-equal, message after h hops == message after one hop; non-trivial = >= 2 hops, a wrapper, or a prefix-like message; distinct = (code, wraps, message class, carrier, hops, status)",
 	Gen:  genScript,
 	Run:  run,
 }
@@ -533,7 +548,7 @@ func TestPropErrors(t *testing.T) { vt.Check(t, prop) }
 var propGrid = &vt.Prop[Script]{
 	ID:   "C07",
 	Name: "ErrorGrid",
-	Rule: "complete grid: 15 standard codes + custom + none x 23 carriers x {bare, NewHTTPError(452) wrapper} over 2 hops",
+	Rule: "complete grid: 15 standard codes + custom + none x 24 carriers x {bare, NewHTTPError(452) wrapper} over 2 hops",
 	Run:  run,
 }
 
